@@ -380,6 +380,53 @@ pub fn run(ctx: &mut Ctx) {
     });
 
 
+    // --------------------------------------------- a complete record at the start of a 2^31 / 2^32-byte buffer (lazily mapped zero
+    // pages) with 2^k - c .. 2^k + c bytes after the header for every c around the declared length: "Incomplete
+    // if and only if the input is a strict prefix" also when the available length does not fit 32 bits
+    ctx.floor("giant-window.cases", 1500);
+    ctx.sweep("giant-available-window", 4, |ctx, idx| {
+        let l = [1usize, 100, 16384, 16640][idx as usize];
+        let mut buf = match gen::lazy_zeroed((1usize << 32) + 40000) {
+            Some(b) => b,
+            None => {
+                ctx.unjudged("giant-buffer-not-allocatable");
+                return;
+            }
+        };
+        for (t, v) in [(0x17u8, 0x0303u16), (0x42, 0x0301), (0x16, 0xfefd)] {
+            buf[0] = t;
+            buf[1..3].copy_from_slice(&v.to_be_bytes());
+            buf[3..5].copy_from_slice(&(l as u16).to_be_bytes());
+            let mut totals: Vec<usize> = Vec::new();
+            for base in [1usize << 31, 1usize << 32] {
+                let cs: Vec<usize> = if l <= 100 { (0..=l + 8).collect() } else { vec![0, 1, 2, 3, 4, 5, l - 1, l, l + 1, l + 5, l / 2, 16384, 65535, 65536] };
+                for c in cs {
+                    totals.push(5 + base - c.min(base));
+                    totals.push(5 + base + c);
+                    totals.push(base - c.min(base));
+                    totals.push(base + c);
+                }
+            }
+            for total in totals {
+                if total > buf.len() || total < 5 + l {
+                    continue;
+                }
+                let input = &buf[..total];
+                for p in [P::Raw, P::Enc] {
+                    if let Some(o) = ctx.guarded("record parser", &input[..32], || call(p, input)) {
+                        ctx.eval();
+                        ctx.count("giant-window.cases");
+                        if let Some(rule) = judge(p, t, v, l, input, &o) {
+                            report(ctx, p, t, v, l, &input[..48], &o, rule);
+                            return;
+                        }
+                    }
+                }
+            }
+        }
+        ctx.shape(&("giant-window", l));
+    });
+
     // --------------------------------------------- what other protocols put on a TLS port (SSL 2.0 CLIENT-HELLO with
     // mutually consistent lengths, HTTP, SSH, SMTP, DTLS records, nested records): the framing contract is a
     // function of the five header bytes and the available length, whatever the rest looks like
